@@ -24,6 +24,9 @@
 //!     prefix, and the release count `recover_from_wal` reports); either outcome.
 //!   * any completion that is in the log — before the crash or logged by commit()/abort() since —
 //!     stays final across later recovery calls on the same coordinator.
+//!   * the log only grows while the coordinator runs: if a call (e.g. a recovery call on the running
+//!     coordinator) rewrites the file, the records it dropped were acknowledged and stay part of
+//!     what the durable prefix obliges.
 //!   * recovery itself succeeds, at any byte, also after appending to a log that had a torn tail.
 
 use common::*;
@@ -186,9 +189,15 @@ impl TxLog {
 type Model = BTreeMap<u64, TxLog>;
 
 /// `None` = the harness lost track (a logged vote without a recorded verdict) => inconclusive
-fn build_model(recs: &[Rec], vote_accept: &HashMap<usize, bool>) -> Option<Model> {
+/// offsets at or above this value are not file offsets: they identify records that the coordinator
+/// had acknowledged (appended and fsynced) and that the code under test later removed from the file
+const REMOVED_BASE: usize = usize::MAX / 2;
+
+/// `removed`: acknowledged records that are no longer in the file because the code rewrote its
+/// log while running; they stay part of what the coordinator has promised.
+fn build_model(removed: &[Rec], recs: &[Rec], vote_accept: &HashMap<usize, bool>) -> Option<Model> {
     let mut m: Model = BTreeMap::new();
-    for r in recs {
+    for r in removed.iter().chain(recs.iter()) {
         match &r.entry {
             TxWalEntry::TxBegin { tx_id, participants } => {
                 m.insert(
@@ -273,6 +282,14 @@ fn vk(v: &PrepareVoteKind) -> &'static str {
     match v {
         PrepareVoteKind::Yes { .. } => "Y",
         _ => "N",
+    }
+}
+
+fn describe_all(removed: &[Rec], recs: &[Rec], names: &Names, vote_accept: &HashMap<usize, bool>) -> String {
+    if removed.is_empty() {
+        describe(recs, names, vote_accept)
+    } else {
+        format!("[acknowledged, later removed from the file by the code: {}] {}", describe(removed, names, vote_accept), describe(recs, names, vote_accept))
     }
 }
 
@@ -362,6 +379,7 @@ fn recovery_script(
     model: &Model,
     names: &Names,
     recs: &[Rec],
+    removed_tx: &std::collections::BTreeSet<u64>,
     rng: &mut Rng,
     out: &mut Vec<Found>,
     rep: &mut Report,
@@ -381,7 +399,7 @@ fn recovery_script(
     // recovery. Observed where the property names it: the real classification of the durable
     // prefix (`TxRecoveryState`, fed with the records the harness decoded) and the number of
     // releases `recover_from_wal` reports.
-    {
+    if removed_tx.is_empty() {
         let entries: Vec<TxWalEntry> = recs.iter().map(|r| r.entry.clone()).collect();
         let state = tensor_chain::tx_wal::TxRecoveryState::from_entries(&entries);
         let mut expected = 0usize;
@@ -439,7 +457,7 @@ fn recovery_script(
                 };
                 match got {
                     None => out.push(Found {
-                        sig: format!("voted-tx-not-restored:{:?}", want_phase),
+                        sig: format!("voted-tx-not-restored:{:?}{}", want_phase, if removed_tx.contains(&tx) { ":its-earlier-log-records-were-removed-by-the-code" } else { "" }),
                         detail: format!("{} had collected all votes (last logged phase {:?}, no outcome) but is absent after restart", n, want_phase),
                     }),
                     Some((ph, votes)) => {
@@ -662,7 +680,7 @@ fn recovery_script(
 }
 
 /// One restart on a copy of the log cut at `prefix.len()`, judged against `model`.
-fn eval_copy(img: &Path, prefix: &[u8], model: &Model, recs: &[Rec], names: &Names, seed: u64, rep: &mut Report) -> Option<Vec<Found>> {
+fn eval_copy(img: &Path, prefix: &[u8], model: &Model, recs: &[Rec], removed_tx: &std::collections::BTreeSet<u64>, names: &Names, seed: u64, rep: &mut Report) -> Option<Vec<Found>> {
     if std::fs::write(img, prefix).is_err() {
         return None;
     }
@@ -671,7 +689,7 @@ fn eval_copy(img: &Path, prefix: &[u8], model: &Model, recs: &[Rec], names: &Nam
     match TxWal::open(img) {
         Ok(w) => {
             let c = new_coordinator(w);
-            recovery_script(&c, model, names, recs, &mut srng, &mut found, rep);
+            recovery_script(&c, model, names, recs, removed_tx, &mut srng, &mut found, rep);
         }
         Err(e) => found.push(Found { sig: "wal-open-failed".into(), detail: format!("TxWal::open failed: {}", e) }),
     }
@@ -683,9 +701,9 @@ fn eval_copy(img: &Path, prefix: &[u8], model: &Model, recs: &[Rec], names: &Nam
 /// of the log *cut at the torn record*: signatures that arise there too are independent of it.
 fn independent_sigs(img: &Path, prefix: &[u8], seg_starts: &[usize], vote_accept: &HashMap<usize, bool>, names: &Names, seed: u64) -> Vec<String> {
     let (recs, _) = logical_log_opt(prefix, prefix.len(), seg_starts, true);
-    let Some(model) = build_model(&recs, vote_accept) else { return Vec::new() };
+    let Some(model) = build_model(&[], &recs, vote_accept) else { return Vec::new() };
     let mut scratch = Report::new();
-    eval_copy(img, prefix, &model, &recs, names, seed, &mut scratch).unwrap_or_default().into_iter().map(|f| f.sig).collect()
+    eval_copy(img, prefix, &model, &recs, &Default::default(), names, seed, &mut scratch).unwrap_or_default().into_iter().map(|f| f.sig).collect()
 }
 
 fn classify(garbage: bool, independent: &[String], f: Found) -> Found {
@@ -718,6 +736,53 @@ struct Chain {
     vote_accept: HashMap<usize, bool>,
     names: Names,
     txs: Vec<TxInfo>,
+    /// acknowledged records the code removed from the file while running (synthetic offsets)
+    removed: Vec<Rec>,
+    /// file content after the previous call, and where the running epoch started appending
+    last_bytes: Vec<u8>,
+    cur_seg: Option<usize>,
+    rewritten_this_epoch: bool,
+}
+
+impl Chain {
+    fn removed_tx(&self) -> std::collections::BTreeSet<u64> {
+        self.removed
+            .iter()
+            .filter_map(|r| match &r.entry {
+                TxWalEntry::TxBegin { tx_id, .. } => Some(*tx_id),
+                _ => None,
+            })
+            .collect()
+    }
+    /// called after every call into the coordinator: the log must only grow. If what was in the
+    /// file before is no longer its prefix, the code rewrote the log; the records it dropped were
+    /// acknowledged and stay part of the promise.
+    fn sync_after_call(&mut self, rep: &mut Report) {
+        let cur = std::fs::read(&self.path).unwrap_or_default();
+        let grew = cur.len() >= self.last_bytes.len() && cur[..self.last_bytes.len()] == self.last_bytes[..];
+        if !grew {
+            let mut ss = self.seg_starts.clone();
+            if let Some(c) = self.cur_seg {
+                if ss.last() != Some(&c) && c > 0 {
+                    ss.push(c);
+                }
+            }
+            let (old, _) = logical_log(&self.last_bytes, self.last_bytes.len(), &ss);
+            for r in old {
+                let key = REMOVED_BASE + self.removed.len();
+                if let Some(a) = self.vote_accept.get(&r.start).copied() {
+                    self.vote_accept.insert(key, a);
+                }
+                self.removed.push(Rec { start: key, end: key, entry: r.entry });
+            }
+            self.vote_accept.retain(|&k, _| k >= REMOVED_BASE);
+            self.seg_starts = vec![0];
+            self.cur_seg = Some(0);
+            self.rewritten_this_epoch = true;
+            rep.count("log_rewritten_while_running", 1);
+        }
+        self.last_bytes = cur;
+    }
 }
 
 fn gen_vote(coord: &DistributedTxCoordinator, tx: u64, shard: usize, rng: &mut Rng, rep: &mut Report) -> PrepareVote {
@@ -779,7 +844,16 @@ fn workload(coord: &DistributedTxCoordinator, ch: &mut Chain, rng: &mut Rng, epo
                 let tx = if rng.chance(1, 40) { tx ^ 0x5555 } else { tx };
                 let voted: Vec<usize> = coord.get(tx).map(|t| t.votes.keys().copied().collect()).unwrap_or_default();
                 let fresh: Vec<usize> = parts.iter().copied().filter(|s| !voted.contains(s)).collect();
-                let shard = if !fresh.is_empty() && rng.chance(4, 5) { *rng.pick(&fresh) } else { *rng.pick(&parts) };
+                let shard = if rng.chance(1, 10) {
+                    // a vote from a shard outside the participant list (mis-routed PREPARE answered
+                    // by the wrong shard): the live coordinator accepts it like any other
+                    rep.count("op:vote-from-non-participant", 1);
+                    3 + rng.below(3)
+                } else if !fresh.is_empty() && rng.chance(4, 5) {
+                    *rng.pick(&fresh)
+                } else {
+                    *rng.pick(&parts)
+                };
                 let vote = gen_vote(coord, tx, shard, rng, rep);
                 let at = file_len(&ch.path);
                 let res = coord.record_vote(tx, shard, vote);
@@ -897,6 +971,7 @@ fn workload(coord: &DistributedTxCoordinator, ch: &mut Chain, rng: &mut Rng, epo
                 }
             }
         }
+        ch.sync_after_call(rep);
     }
 }
 
@@ -950,6 +1025,10 @@ fn run_case(args: &Args, case_seed: u64, rep: &mut Report) {
         vote_accept: HashMap::new(),
         names: Names::default(),
         txs: Vec::new(),
+        removed: Vec::new(),
+        last_bytes: Vec::new(),
+        cur_seg: None,
+        rewritten_this_epoch: false,
     };
     let crashes = 1 + rng.below(3);
     let cap = args.by_tier(700usize, 4000usize);
@@ -965,26 +1044,29 @@ fn run_case(args: &Args, case_seed: u64, rep: &mut Report) {
                 let bytes = std::fs::read(&ch.path).unwrap_or_default();
                 let (recs, garbage) = logical_log(&bytes, bytes.len(), &ch.seg_starts);
                 let f = classify(garbage, &[], Found { sig: "wal-open-failed".into(), detail: format!("TxWal::open failed: {}", e) });
-                report(vec![f], rep, case_seed, epoch, pre_len, "chain", &describe(&recs, &ch.names, &ch.vote_accept));
+                report(vec![f], rep, case_seed, epoch, pre_len, "chain", &describe_all(&ch.removed, &recs, &ch.names, &ch.vote_accept));
                 return;
             }
         };
         let open_len = file_len(&ch.path);
         let coord = new_coordinator(wal);
+        ch.last_bytes = std::fs::read(&ch.path).unwrap_or_default();
+        ch.cur_seg = Some(if epoch == 0 { 0 } else { open_len });
+        ch.rewritten_this_epoch = false;
         let mut known: Model = BTreeMap::new();
         let mut restart_garbage = false;
         if epoch > 0 {
             let bytes = std::fs::read(&ch.path).unwrap_or_default();
             let (recs, garbage) = logical_log(&bytes, bytes.len(), &ch.seg_starts);
-            let Some(model) = build_model(&recs, &ch.vote_accept) else {
+            let Some(model) = build_model(&ch.removed, &recs, &ch.vote_accept) else {
                 rep.inconclusive("harness lost track of a logged vote");
                 return;
             };
             let mut found = Vec::new();
             let script_seed = rng.next_u64();
             let mut srng = Rng::new(script_seed);
-            let ok = recovery_script(&coord, &model, &ch.names, &recs, &mut srng, &mut found, rep);
-            let log = describe(&recs, &ch.names, &ch.vote_accept);
+            let ok = recovery_script(&coord, &model, &ch.names, &recs, &ch.removed_tx(), &mut srng, &mut found, rep);
+            let log = describe_all(&ch.removed, &recs, &ch.names, &ch.vote_accept);
             rep.eval(hash_combine(hash_str(&log), 0xC4A1), is_nontrivial(&model));
             rep.count("chain_restarts", 1);
             restart_garbage = garbage;
@@ -1001,6 +1083,7 @@ fn run_case(args: &Args, case_seed: u64, rep: &mut Report) {
             if !ok {
                 return;
             }
+            ch.sync_after_call(rep);
             known = model;
         }
         if epoch == crashes && epoch > 0 {
@@ -1017,7 +1100,8 @@ fn run_case(args: &Args, case_seed: u64, rep: &mut Report) {
         // where did this epoch start appending? (a repaired log continues at the end of the valid
         // chain, an unrepaired one behind the torn bytes)
         let mut seg = None;
-        for c in [open_len, valid_end_prev, pre_len] {
+        let candidates = if ch.rewritten_this_epoch { vec![0usize] } else { vec![open_len, valid_end_prev, pre_len] };
+        for c in candidates {
             if c <= total && decode_run(&bytes, c, total).1 == total {
                 seg = Some(c);
                 break;
@@ -1027,7 +1111,7 @@ fn run_case(args: &Args, case_seed: u64, rep: &mut Report) {
             rep.inconclusive("harness cannot locate the records appended in this epoch");
             return;
         };
-        if epoch > 0 {
+        if epoch > 0 && !ch.rewritten_this_epoch {
             ch.seg_starts.push(seg);
             if seg > valid_end_prev {
                 rep.count("appends_behind_unrepaired_torn_tail", (total > seg) as u64);
@@ -1037,7 +1121,7 @@ fn run_case(args: &Args, case_seed: u64, rep: &mut Report) {
         }
         {
             let (recs, garbage) = logical_log(&bytes, total, &ch.seg_starts);
-            let log = describe(&recs, &ch.names, &ch.vote_accept);
+            let log = describe_all(&ch.removed, &recs, &ch.names, &ch.vote_accept);
             // what this coordinator accepted depends on what it could read at its restart: if the
             // log then had a torn record with records behind it, it never saw those outcomes
             let _ = garbage;
@@ -1050,16 +1134,17 @@ fn run_case(args: &Args, case_seed: u64, rep: &mut Report) {
         // ---------------- every byte of this epoch as a crash image (on a copy)
         let epoch_recs = decode_run(&bytes, seg, total).0;
         rep.count("wal_records_written", epoch_recs.len() as u64);
-        let lo = if epoch == 0 { 0 } else { seg };
+        let lo = if epoch == 0 || ch.rewritten_this_epoch { 0 } else { seg };
+        let removed_tx = ch.removed_tx();
         let points = crash_points(&epoch_recs, lo, total, cap, &mut rng);
         for &b in &points {
             let (recs, garbage) = logical_log(&bytes, b, &ch.seg_starts);
-            let Some(model) = build_model(&recs, &ch.vote_accept) else {
+            let Some(model) = build_model(&ch.removed, &recs, &ch.vote_accept) else {
                 rep.inconclusive("harness lost track of a logged vote");
                 continue;
             };
             let seed = case_seed ^ (b as u64).wrapping_mul(0x9E37_79B9) ^ ((epoch as u64) << 56);
-            let Some(found) = eval_copy(&ch.img, &bytes[..b], &model, &recs, &ch.names, seed, rep) else {
+            let Some(found) = eval_copy(&ch.img, &bytes[..b], &model, &recs, &removed_tx, &ch.names, seed, rep) else {
                 rep.inconclusive("scratch write failed");
                 continue;
             };
@@ -1069,7 +1154,7 @@ fn run_case(args: &Args, case_seed: u64, rep: &mut Report) {
             if garbage {
                 rep.count("images_with_unrepaired_torn_tail", 1);
             }
-            let log = describe(&recs, &ch.names, &ch.vote_accept);
+            let log = describe_all(&ch.removed, &recs, &ch.names, &ch.vote_accept);
             rep.eval(hash_combine(hash_str(&log), b as u64 - recs.last().map(|r| r.end).unwrap_or(0) as u64), is_nontrivial(&model));
             if !found.is_empty() {
                 let indep = if garbage { independent_sigs(&ch.img, &bytes[..b], &ch.seg_starts, &ch.vote_accept, &ch.names, seed) } else { Vec::new() };
@@ -1110,7 +1195,7 @@ fn run_case(args: &Args, case_seed: u64, rep: &mut Report) {
         while ch.seg_starts.len() > 1 && *ch.seg_starts.last().unwrap() > b {
             ch.seg_starts.pop();
         }
-        ch.vote_accept.retain(|&off, _| off < b);
+        ch.vote_accept.retain(|&off, _| off < b || off >= REMOVED_BASE);
     }
 }
 
@@ -1306,6 +1391,7 @@ fn main() {
                 ("hostile:commit-after-logged-abort", 500),
                 ("chain_crashes_with_torn_tail", 30),
                 ("live_lock_holders_across_recovery_calls", 100),
+                ("op:vote-from-non-participant", 300),
                 ("checked:unreleased-locks-after-commit", 200),
                 ("checked:unreleased-locks-after-abort", 2_000),
                 ("checked:completed-after-restart-across-later-recovery-call", 500),
